@@ -20,7 +20,7 @@ TARGET = dict(
 )
 META = dict(
     technique="systematic concurrency testing: deterministic coroutine scheduler with virtual event descriptors over the real uqueue / udeal code, client protocols of the queue source/sink and of the dealer test, deadlock detection = lost wake-up, random / PCT / exhaustively enumerated bounded-preemption schedules",
-    text="Generated producer/consumer programs on a uqueue (length 1-3, <=2x2 threads, <=4 items) and contender programs on a udeal (2-3 threads), the threads sleeping on virtual event descriptors exactly as upipe_queue_source/sink and udeal_test do; a deadlock of the scheduler is a lost wake-up, occupancy and holder counters are checked at every step, delivery is exactly-once and the queue history linearizable as a bounded FIFO. For 10 templates every schedule with <= 2 (quick) / <= 3 (thorough) preemptions is enumerated; the rest is sampled.",
+    text="Generated producer/consumer programs on a uqueue (length 1-3, <=2x2 threads, <=4 items) and contender programs on a udeal (2-3 threads), the threads sleeping on virtual event descriptors exactly as upipe_queue_source/sink and udeal_test do; a deadlock of the scheduler is a lost wake-up, occupancy and holder counters are checked at every step, delivery is exactly-once and the queue history linearizable as a bounded FIFO. For 10 templates every schedule with <= 2 (quick) / <= 3 (thorough) preemptions is enumerated; the rest is sampled. Executor realfd: the same producer / consumer programs on real eventfd / pipe descriptors polled by a real libev loop, judged by wake-up implications only (a sleeper whose condition holds is woken within the loop iteration; no timing oracle).",
     design_ref="DESIGN.md section 6, C08; section 3.2; appendix A.5",
     note="SC interleavings at hook granularity; the uqueue 'counter' itself is not asserted (it legitimately wraps transiently when a pop overtakes the producer's fetch_add) — only what the property states; liveness beyond termination of finite programs is not addressed.",
 )
